@@ -347,24 +347,24 @@ func (c *Ctx) CheckProperty(id string) (*Result, error) {
 		vac[v.Status]++
 	}
 	cov := map[string]any{
-		"obligations":              len(res.Obls),
-		"discharged":               discharged,
-		"undischarged":             len(undis),
-		"known_findings_hit":       knownHit,
-		"checker_cmd":              fmt.Sprintf("cd /verif && bin/verif check %s --tier %s", id, c.Opt.Tier),
-		"trusted_base":             tb,
-		"samples":                  samples,
-		"backends":                 backends,
-		"solver_s":                 round3(solverS),
-		"functions_under_contract": fnNames,
-		"inlined_callees":          inlined,
-		"type_invariants_assumed":  tinvs,
-		"vacuity_checks":           vac,
-		"notes":                    notes,
-		"explanation":              cfg.Explanation,
-		"replays_confirmed":        replayed,
+		"obligations":                           len(res.Obls),
+		"discharged":                            discharged,
+		"undischarged":                          len(undis),
+		"known_findings_hit":                    knownHit,
+		"checker_cmd":                           fmt.Sprintf("cd /verif && bin/verif check %s --tier %s", id, c.Opt.Tier),
+		"trusted_base":                          tb,
+		"samples":                               samples,
+		"backends":                              backends,
+		"solver_s":                              round3(solverS),
+		"functions_under_contract":              fnNames,
+		"inlined_callees":                       inlined,
+		"type_invariants_assumed":               tinvs,
+		"vacuity_checks":                        vac,
+		"notes":                                 notes,
+		"explanation":                           cfg.Explanation,
+		"replays_confirmed":                     replayed,
 		"expected_discharged_on_unchanged_tree": len(expSet),
-		"engines":                  cfg.engines(),
+		"engines":                               cfg.engines(),
 	}
 	if len(res.Known) > 0 {
 		cov["known_findings"] = res.Known
